@@ -322,6 +322,9 @@ package trzsz
 //@   assigns t.createdFiles, elemsof("string")
 //@   ensures [C09] createdIn(t)
 //@   ensures [C10] createdMade(t)
+//@   # C10: the list is complete - every path handed in is recorded (at the end), nothing recorded before is dropped
+//@   ensures [C10] len(t.createdFiles) == old(len(t.createdFiles)) + 1 && t.createdFiles[len(t.createdFiles) - 1] == path
+//@   ensures [C10] forall k int {t.createdFiles[k]} :: 0 <= k && k < old(len(t.createdFiles)) ==> t.createdFiles[k] == old(t.createdFiles[k])
 //@   ensures forall r int {heap("string")[r]} :: r != old(ref(t.createdFiles)) && r <= old(alloc()) ==> heap("string")[r] == old(heap("string"))[r]
 //@ end
 
@@ -340,6 +343,8 @@ package trzsz
 //@   ensures forall r int {heap("string")[r]} :: r != old(ref(t.createdFiles)) && r <= old(alloc()) ==> heap("string")[r] == old(heap("string"))[r]
 //@   # C08: an existing file is cut to nothing exactly when the caller asked for it (O_RDWR|O_CREATE[|O_TRUNC])
 //@   before os.OpenFile assert [C08] (truncate ==> p1 == 578) && (!truncate ==> p1 == 66)
+//@   # C10: a file that was opened for writing is on the clean-up list
+//@   ensures [C10] r1 == nil ==> len(t.createdFiles) == old(len(t.createdFiles)) + 1 && t.createdFiles[len(t.createdFiles) - 1] == path
 //@ end
 
 //@ func trzszTransfer.doCreateDirectory
@@ -354,12 +359,25 @@ package trzsz
 //@   ensures [C10] createdMade(t)
 //@   ensures [C07] fsMono()
 //@   ensures forall r int {heap("string")[r]} :: r != old(ref(t.createdFiles)) && r <= old(alloc()) ==> heap("string")[r] == old(heap("string"))[r]
+//@   # C10: a directory this transfer made (it did not exist and MkdirAll succeeded) is on the clean-up list;
+//@   # one that existed is not
+//@   ensures [C10] r0 == nil && result_of("os.IsNotExist", 0, 0) ==> \
+//@       len(t.createdFiles) == old(len(t.createdFiles)) + 1 && t.createdFiles[len(t.createdFiles) - 1] == path
+//@   ensures [C10] !result_of("os.IsNotExist", 0, 0) ==> len(t.createdFiles) == old(len(t.createdFiles))
 //@ end
 
 //@ func trzszTransfer.deleteCreatedFiles
 //@   requires [C09] createdIn(t)
 //@   requires [C10] createdMade(t)
+//@   # C10: no recorded path is skipped - each one is either found gone already or handed to os.RemoveAll
+//@   ghostvar tried int = 0
+//@   ghostvar gone int = 0
+//@   after os.RemoveAll set tried = tried + 1
+//@   after os.IsNotExist set gone = gone + ite(r0, 1, 0)
+//@   before os.RemoveAll assert [C10] !result_of("os.IsNotExist", 0, 0) && p0 == path
+//@   ensures [C10] tried + gone == len(t.createdFiles)
 //@   loop 1
+//@     invariant [C10] tried + gone == #i && #i <= len(t.createdFiles)
 //@     invariant [C09] createdIn(t)
 //@     invariant [C10] createdMade(t)
 //@     invariant len(t.createdFiles) > 0 ==> ref(deletedFiles) != ref(t.createdFiles)
